@@ -48,8 +48,9 @@ Definition sn_trim_time (s : sensor) : sensor :=
   then mkSn (sn_cap s) (sn_data s) (tl (sn_time s)) (sn_last s) (sn_cbs s) (sn_counter s) (sn_count s)
   else s.
 
+(** the time series is appended to and trimmed first, then sense() collects and notifies: the callbacks run in the final state *)
 Definition periodic_sense (nw : Z) (vals : list Z) (s : sensor) : sensor * list (Z * Z * list Z) :=
-  let s1 := sn_collect vals (sn_add_time nw s) in (sn_trim_time s1, sn_sense_calls nw s1).
+  let s1 := sn_collect vals (sn_trim_time (sn_add_time nw s)) in (s1, sn_sense_calls nw s1).
 
 (** OutputPartSensor._probe_part: [interval] = sensing interval n *)
 Definition probe_part (nw : Z) (interval : Z) (vals : list Z) (s : sensor) : sensor * list (Z * Z * list Z) :=
